@@ -1,6 +1,6 @@
 """Which engines decide which property. Shared by ./check and tools/gen_manifest.py."""
 
-ALL_DRIVERS = ["arith", "cross", "crossx", "prim", "primx", "text", "bytes", "wrap", "trans"]
+ALL_DRIVERS = ["arith", "cross", "crossx", "prim", "primx", "text", "bytes", "wrap", "trans", "transx"]
 
 # drivers that switch on optional features of the subject (built in a separate cargo invocation)
 FEATURE_GROUP = {"bytes": "serde"}
@@ -25,8 +25,8 @@ PRIM_RULE = ("every compiled layout (90 quick: all 8-bit layouts + boundary frac
              "boundary alphabet otherwise; floats: every exponent (f32; f64 thorough, quick: +-140 around the bias and the extremes) x "
              "structured mantissas x both signs, incl. zeros, subnormals, largest finite binade, infinities, NaNs; comparisons also against the floor of the value +-1 (integers) and the nearest float +-1, +-2 ulp; ")
 
-TRANS_RULE = """type pairs S->D: I9F23, I9F55, I16F48, I32F32, I41F23, I9F119, I40F88, I64F64, I96F32, I105F23 onto themselves, I9F23->{I32F32, I64F64, I9F55, I10F54, I96F32}, I32F32->I64F64, I16F48->I40F88, and for sqrt U9F23, U9F55, U32F32, U9F119, U64F64, U96F32, U105F23, U9F23->U64F64, U32F32->U96F32; operands: boundary alphabet, integers 0..300 and halves, neighbourhoods of 1 and 2, the representable neighbours of 2^(k + j/8) in every octave (thorough j/32), a grid of 2^g values per octave over the whole range of the type (g = 5 quick / 9 thorough; 3 / 7 for 128-bit sources), both signs; thorough: every one of the 2^32 bit patterns of I9F23 and U9F23; """
-TRIG_RULE = ("types I9F23, I9F55, I16F48, I32F32, I41F23, I9F119, I40F88, I64F64, I96F32, I105F23; angles: every multiple of 2^-5 (thorough 2^-10) in [-200, 200] "
+TRANS_RULE = """type pairs S->D: I9F23, I9F55, I16F48, I32F32, I41F23, I9F119, I40F88, I64F64, I96F32, I105F23 onto themselves, I9F23->{I32F32, I64F64, I9F55, I10F54, I96F32}, I32F32->I64F64, I16F48->I40F88, and for sqrt U9F23, U9F55, U32F32, U9F119, U64F64, U96F32, U105F23, U9F23->U64F64, U32F32->U96F32; operands: boundary alphabet, integers 0..300 and halves, neighbourhoods of 1 and 2, the representable neighbours of 2^(k + j/8) in every octave (thorough j/32), a grid of 2^g values per octave over the whole range of the type (g = 5 quick / 9 thorough; 3 / 7 for 128-bit sources), both signs; thorough: every one of the 2^32 bit patterns of I9F23 and U9F23; second engine (transx): every other supported layout onto itself (all 64-bit types with 9..41 integer bits and all 128-bit types with 9..105 integer bits: 121 further signed pairs, 134 unsigned ones for sqrt), 57 widening pairs (I9F23 into every supported 64-bit layout and 12 128-bit ones; six 64-bit sources into the 128-bit layouts with equal fractional bits, equal integer bits and in between), 9 unsigned-to-signed pairs, with thinner operand sets in the quick tier (boundary alphabet, integers 0..20, neighbours of 2^(k + j/4), 2 grid values per octave; pow/powi on every 7th/11th of those plus the essential values) and the quick-tier sets above in the thorough tier; """
+TRIG_RULE = ("types I9F23, I9F55, I16F48, I32F32, I41F23, I9F119, I40F88, I64F64, I96F32, I105F23 (second engine: the other 121 supported 64- and 128-bit layouts, quick tier with a 2^-2 grid and a reduced neighbourhood set); angles: every multiple of 2^-5 (thorough 2^-10) in [-200, 200] "
              "([-100, 100] for tan), boundary alphabet inside the range, the neighbourhood (0, +-1, +-2, +-100 ulp, +-2^-m for m = 1..24) of each multiple of pi/2 up "
              "to 130 pi/2; thorough: every I9F23 angle in the range (3.36e9 for sin and cos, 1.68e9 for tan); ")
 
@@ -41,6 +41,7 @@ PROPS = {
             {"driver": "bytes", "digest_compare": True},
             {"driver": "wrap", "digest_compare": True},
             {"driver": "trans", "digest_compare": True},
+            {"driver": "transx", "digest_compare": True},
             {"driver": "crossx", "digest_compare": True, "returned_pass": True, "tiers": ["thorough"]},
             {"driver": "primx", "digest_compare": True, "returned_pass": True, "tiers": ["thorough"]},
         ],
@@ -56,37 +57,37 @@ PROPS = {
     "C12": {
         "require": [('sqrt', 'err'), ('log2', 'err'), ('pow', 'err'), ('exp', 'err'), ('powi', 'err'), ('powi', 'value'), ('tan', 'value')],
         "title": "Result-returning math functions are total: Ok or Err, never a panic",
-        "stages": [{"driver": "trans"}],
+        "stages": [{"driver": "trans"}, {"driver": "transx"}],
         "rule": TRANS_RULE + "pow: bases x exponents from thinner grids; powi: bases x {|n| <= 64, +-2^k, +-(2^k+-1), i32::MIN, MIN+1, MAX, MAX-1} under an iteration budget (a call cut by the budget is counted, not judged); " + TRIG_RULE + "a state is one (function, type pair, operand tuple), a transition one call under catch_unwind with the tick budget; judged: no unwinding, Err for sqrt of a negative, log of a non-positive, fractional power of a negative base; tan only where the reference says |tan x| <= 64",
         "assumptions": ["powi with |n| up to 2^31 is linear in |n| by design; calls that exceed the iteration budget (30 000 quick, 250 000 thorough) are cut and reported as unexplored"],
     },
     "C13": {
         "require": [('sqrt', 'err'), ('sqrt', 'value'), ('sqrt', 'zero')],
         "title": "sqrt is accurate to a few units in the last place",
-        "stages": [{"driver": "trans"}],
+        "stages": [{"driver": "trans"}, {"driver": "transx"}],
         "rule": TRANS_RULE + "oracle: exact integer bracket (R-4)^2 <= X*2^F <= (R+4)^2 on 384-bit integers, sqrt(0) and sqrt(1) exact, result non-negative, Err only for x < 0 or 0 < x < 1 with trunc(2^2F / X) not representable",
     },
     "C14": {
         "require": [('log2', 'err'), ('ln', 'value'), ('log2', 'zero')],
         "title": "log2 and ln are accurate to the destination's resolution",
-        "stages": [{"driver": "trans"}],
+        "stages": [{"driver": "trans"}, {"driver": "transx"}],
         "rule": TRANS_RULE + "oracle: 256-bit series arithmetic (atanh series; self-tested against f64 libm and identities), f64 libm with a guard band for 32-bit destinations; bounds 8 ulp (log2), 2^-23 |ln x| + 8 ulp (ln), exactness on powers of two, sign rule, Err only for x <= 0 or unrepresentable reciprocal",
     },
     "C15": {
         "require": [('exp', 'value'), ('pow', 'value'), ('powi', 'value'), ('pow', 'zero')],
         "title": "exp, pow and powi are accurate wherever they return Ok",
-        "stages": [{"driver": "trans"}],
+        "stages": [{"driver": "trans"}, {"driver": "transx"}],
         "rule": TRANS_RULE + "pow: bases x exponents (|y| <= 64 and the extremes) from thinner grids; powi: bases x the exponent alphabet of C12; oracle: 256-bit exp/ln series; bounds exactly as stated in the property; negative powi against the truncated reciprocal of the subject's own powi(x, |n|)",
     },
     "C16": {
         "require": [('sin', 'value'), ('cos', 'value'), ('tan', 'value')],
         "title": "sin, cos and tan are accurate over many periods in every supported type",
-        "stages": [{"driver": "trans"}],
+        "stages": [{"driver": "trans"}, {"driver": "transx"}],
         "rule": TRIG_RULE + "oracle: 256-bit Taylor series with Machin pi (f64 libm with guard band for I9F23); bounds 2^-16 and range for sin/cos, 2^-14 (1 + tan^2 x) where |tan x| <= 64",
     },
     "C17": {
         "title": "math functions do a bounded amount of work, independent of operand magnitude",
-        "stages": [{"driver": "trans"}],
+        "stages": [{"driver": "trans"}, {"driver": "transx"}],
         "rule": TRANS_RULE + TRIG_RULE + "plus, for sin/cos/tan, operands over the whole range of each type (far outside |x| <= 200); every call runs with the cfg(substrate_fixed_verif) tick hook: the thread-local loop-iteration counter is reset, the call executed with a budget of 4 x width + 65 (exceeding it unwinds the call), the count read back; judged: count <= 4 x width(destination) + 64; powi excluded",
         "assumptions": ["every loop body of src/transcendental.rs carries a tick() call (hook commit; a loop added without one is invisible to this check)"],
     },
@@ -185,6 +186,7 @@ PROPS = {
 
 DRIVER_KIND = {
     "trans": "Rust; sqrt/log2/ln/exp/pow/powi/sin/cos/tan on 26 type pairs and 10 trig types against integer brackets, f64 libm with guard band and a 256-bit series reference; loop-iteration counts through the tick hook",
+    "transx": "Rust; the trans engine compiled for every other supported layout: 121 further signed same-type pairs (all 64-bit types I10F54..I40F24 and 128-bit types I10F118..I104F24), 57 widening pairs, 143 unsigned-source pairs for sqrt/powi, 121 further trigonometric types; thin operand sets in the quick tier, the quick-tier sets of trans in the thorough tier",
     "wrap": "Rust; explicit-state exploration (BFS over the state graph) of Wrapping<F> for all 506 layouts against arithmetic modulo 2^width",
     "bytes": "Rust; SCALE / byte / bit / serde views of all 506 layouts against the little-endian bytes of the bit pattern",
     "text": "Rust; parsing and formatting of all 506 layouts against exact rational/digit models; runtime-selected format specs through &dyn fmt traits",
